@@ -266,7 +266,10 @@ func (x *Exec) verifyEntry(fn *ssa.Function, con *FnContract) {
 }
 
 func (x *Exec) exitObligations(fr *frame, fn *ssa.Function, con *FnContract, pkg *types.Package, recvInv bool, vals []Value, out *State) {
-	post := &Env{x: x, st: out, old: fr.entrySt, vars: map[string]Value{}, pkg: pkg, ovars: fr.params}
+	post := &Env{x: x, st: out, old: fr.entrySt, vars: map[string]Value{}, pkg: pkg, ovars: fr.params, fr: fr}
+	if x.c.curBlk >= 0 && x.c.curBlk < len(fn.Blocks) {
+		post.blk = fn.Blocks[x.c.curBlk] // locals visible at this return point may be named in ensures
+	}
 	for k, v := range fr.params {
 		post.vars[k] = v
 	}
